@@ -731,7 +731,11 @@ func genPrioScenario(rng *rand.Rand, g prioGen) PrioScenario {
 					return
 				}
 				n := 1 + rng.IntN(H+2)
-				out = append(out, POp{K: "add", P: p, Cap: capOf(n)}, POp{K: "W", P: p, N: n})
+				kind := "add"
+				if rng.IntN(3) == 0 {
+					kind = "addold" // with the channel object that was registered before the removal, if it is still open
+				}
+				out = append(out, POp{K: kind, P: p, Cap: capOf(n)}, POp{K: "W", P: p, N: n})
 				present[p] = true
 			}
 			if rng.IntN(2) == 0 {
@@ -749,6 +753,37 @@ func genPrioScenario(rng *rand.Rand, g prioGen) PrioScenario {
 		}
 		if at[len(sc.Script)] {
 			emit()
+		}
+		if rng.IntN(6) == 0 {
+			// end game: everything registered is closed and drained; a further (open, empty) input
+			// is added and GracefulStop() is called the instant AddInput() has returned - with a
+			// divider that takes its time, so that both land in one pass of the scheduler. The
+			// discipline must wait for the new input.
+			var free []uint
+			for _, p := range extra {
+				if !present[p] {
+					free = append(free, p)
+				}
+			}
+			if len(free) >= 1 {
+				var ps []uint
+				for p, ok := range present {
+					if ok {
+						ps = append(ps, p)
+					}
+				}
+				sort.Slice(ps, func(i, j int) bool { return ps[i] < ps[j] })
+				for _, p := range ps {
+					out = append(out, POp{K: "C", P: p})
+				}
+				out = append(out, POp{K: "D"}, POp{K: "R", Mode: "all"}, POp{K: "D"}, POp{K: "R", Mode: "all"}, POp{K: "D"},
+					POp{K: "add", P: free[0], Cap: 1 + rng.IntN(3), Mode: "then-graceful"},
+					POp{K: "H", D: int64(500 + rng.IntN(3000))})
+				present[free[0]] = true
+				sc.DividerDelayNs = []int{0, 5, 40}[rng.IntN(3)]
+				sc.Script = out
+				return sc
+			}
 		}
 		if rng.IntN(5) == 0 {
 			// end game: GracefulStop() is requested while an input is still open (so the
